@@ -122,6 +122,7 @@ class Conc(object):
         self.variant_seed = rnd.randrange(1 << 30) if variants is None else variants
         self.umask = rnd.choice([0o022, 0o022, 0o000, 0o077])
         self.clock_via_env = rnd.random() < 0.5
+        self.xdg_link = rnd.random() < 0.3        # $XDG_DATA_HOME is a symlink to a directory (trash dir reached through a link)
 
     def name(self, n):
         return self.names[n]
@@ -270,6 +271,8 @@ class World(object):
         p = self.tpath(t)
         if tkind(t) == 't1' and self.cfg['top'].get(treg(t), 'absent').startswith('link'):
             return os.path.join(self.rpath(treg(t)), '.realtrash', str(self.conc.uid))
+        if tkind(t) == 'home' and self.cfg['xdg'] == 'set' and self.conc.xdg_link:
+            return os.path.join(self.home(), 'realxdg', 'Trash')
         return p
 
     def tbase(self, t):
@@ -410,6 +413,9 @@ class World(object):
         for r in REGIONS:
             os.makedirs(self.rpath(r), exist_ok=True)
         os.makedirs(self.home(), exist_ok=True)
+        if cfg['xdg'] == 'set' and conc.xdg_link:
+            os.makedirs(os.path.join(self.home(), 'realxdg'), exist_ok=True)
+            os.symlink('realxdg', os.path.join(self.home(), 'xdg'))
         os.makedirs(os.path.join(self.root, 'cwd'), exist_ok=True)
         for x in st['dirs']:
             os.makedirs(self.dpath(x['r'], x['d']), exist_ok=True)
@@ -511,9 +517,12 @@ class World(object):
                     f.write(rnd.choice(self.JUNK_NOPATH))
             self.slots[(j['t'], s)] = ('junk', j['id'])
         elif j['kind'] == 'notinfo':
+            # a file in info/ that is not the info file of any slot: another suffix, or no slot name at all
             s = b'junk-%d.txt' % j['id']
+            if rnd.random() < 0.4 and not os.path.lexists(tp + b'/info/.trashinfo'):
+                s = b'.trashinfo'
             with open(tp + b'/info/' + s, 'wb') as f:
-                f.write(b'[Trash Info]\nPath=/should/be/ignored\nDeletionDate=2001-01-01T00:00:00\n')
+                f.write(b'[Trash Info]\nPath=' + escape(self.lpath('R', 'd', 'a')) + b'\nDeletionDate=1971-01-01T00:00:00\n')
             self.slots[(j['t'], s)] = ('junkfile', j['id'])
         else:
             raise ValueError(j['kind'])
@@ -615,7 +624,7 @@ class World(object):
             for iname, ik in sorted(infos.items()):
                 consume(ik)
                 known = self.slots.get((t, iname)) or self.slots.get((t, iname[:-10] if iname.endswith(b'.trashinfo') else iname))
-                if not iname.endswith(b'.trashinfo'):
+                if not iname.endswith(b'.trashinfo') or iname == b'.trashinfo':
                     if known and known[0] == 'junkfile':
                         junk.append({'t': t, 'id': known[1], 'kind': 'notinfo'})
                         if snap[ik] != self.baseline.get(ik):
